@@ -357,6 +357,63 @@ def _show(r):
     return "%s%s" % (r["k"], json.dumps(r["rows"]))
 
 
+# ----------------------------------------------------------------------------- memo-aware tours
+# The row getters are memoized per Result object and dropped by the generative calls.  The documented behaviour does not
+# depend on that, so the spec state (of the base Result) does not carry it and an edge tour may reach `unique()` /
+# `columns()` / `yield_per()` only through histories in which the getter used afterwards was never memoized before.
+# These extra walks make every generative edge occur as  <fetch through getter g> <generative call> <fetch through g>
+# on the same object, for each getter g, wherever the graph has such a triple.
+GENERATIVE = ("Unique", "Columns", "YieldPer")
+USES = {"FetchOne": "one", "Next": "one", "IterStep": "it", "FetchMany": "many", "Partitions": "many", "All": "all"}
+
+
+def memo_walks(g, maxlen, rng, per=1):
+    from collections import deque
+    parent, depth = {}, {}
+    dq = deque()
+    for i in g.inits:
+        parent[i], depth[i] = None, 0
+        dq.append(i)
+    while dq:
+        x = dq.popleft()
+        for ei in g.out[x]:
+            t = g.edges[ei][2]
+            if t not in parent:
+                parent[t], depth[t] = ei, depth[x] + 1
+                dq.append(t)
+
+    def path_to(x):
+        p = []
+        while parent[x] is not None:
+            p.append(parent[x])
+            x = g.edges[parent[x]][0]
+        p.reverse()
+        return p
+
+    inedges = {}
+    for ei, e in enumerate(g.edges):
+        if e[1]["a"] in USES:
+            inedges.setdefault(e[2], []).append(ei)
+    walks = []
+    for ei, (sk, act, tk) in enumerate(g.edges):
+        if act["a"] not in GENERATIVE:
+            continue
+        hs = ("b", "v") if act["a"] == "YieldPer" else (act["h"],)        # yield_per through the view also re-generates the Result
+        for h in hs:
+            for getter in ("one", "many", "it", "all"):
+                preds = [pe for pe in inedges.get(sk, ()) if g.edges[pe][1]["h"] == h and g.edges[pe][0] in depth
+                         and depth[g.edges[pe][0]] + 3 <= maxlen
+                         and (USES[g.edges[pe][1]["a"]] == getter or (getter == "all" and g.edges[pe][1]["a"] != "All"))]
+                succs = [se for se in g.out[tk] if g.edges[se][1]["h"] == h and USES.get(g.edges[se][1]["a"]) == getter]
+                if not preds or not succs:
+                    continue
+                best = [se for se in succs if g.edges[se][1]["idx"]] or succs
+                for _ in range(per):
+                    pe = rng.choice(preds)
+                    walks.append(path_to(g.edges[pe][0]) + [pe, ei, rng.choice(best)])
+    return walks
+
+
 # ----------------------------------------------------------------------------- sharded replay of (graph, impl, walks)
 _JOBS = None      # {gid: {"states":..., "edges":..., "walks":..., "uvals":...}}
 
